@@ -135,7 +135,7 @@ def main():
             "guard": "unhindered_ec_verif",
             "enable": "rustflags --cfg unhindered_ec_verif in /verif/harness/.cargo/config.toml and /verif/harness-gen/.cargo/config.toml; the only hooks are three extra #[push_state(builder)] structs in push::push_vm::verif_alt_state (AltState, MiniState, SplitState) used by C19; every other observation goes through the public API and harness-supplied probe types",
             "baseline_off_cmd": "cd /repo && cargo test --workspace --no-fail-fast --offline",
-            "source_commits": ["64d4a14", "2d6ff76", "bdaedf6"],
+            "source_commits": ["64d4a14", "2d6ff76", "bdaedf6", "b214757"],
             "add_only": True,
         },
         "engines": [{
